@@ -141,15 +141,17 @@ def shard(arg):
         okc += 1
         # flow control pausing the receivers in the middle of a read must not strand what was already read
         for k in range(1, len(seq) + 1):
-          for cuts in ([], [len(payload) // 2]):
-            rp = segx.run_with_pause(kind, payload, k, cuts)
+          for cuts, then in (([], 'resume'), ([len(payload) // 2], 'resume'), ([], 'lose')):
+            rp = segx.run_with_pause(kind, payload, k, cuts, then)
             execs += 1
             gotp = list(rp.sh['delivered'])
-            if rp.exc is not None or not same_log(gotp, want) or rp.transport.producerState != 'producing':
+            if rp.exc is not None or not same_log(gotp, want) or (then == 'resume' and rp.transport.producerState != 'producing'):
               if len(bad) < 3:
-                bad.append(('pause-strands-data:' + kind, '%s %r: receivers paused during datapoint %d and resumed after the read: sent %r, '
-                            'delivered %r, exception %r, transport %s' % (kind, desc, k, want, gotp, rp.exc, rp.transport.producerState),
-                            dict(rep, cuts=cuts, pause_at=k)))
+                bad.append(('pause-strands-data:' + kind, '%s %r: receivers paused during datapoint %d and %s: sent %r, '
+                            'delivered %r, exception %r, transport %s' % (
+                              kind, desc, k, 'resumed after the read' if then == 'resume' else 'the connection lost before they were resumed',
+                              want, gotp, rp.exc, rp.transport.producerState),
+                            dict(rep, cuts=cuts, pause_at=k, then=then)))
   return states, trans, execs, segs, okc, bad
 
 
@@ -203,7 +205,7 @@ def replay(path):
   stream = bytes.fromhex(rep['stream_hex'])
   seq = [(x[0],) + tuple(float(y) if isinstance(y, str) else y for y in x[1:]) for x in rep['sequence']]
   if rep.get('pause_at'):
-    r = segx.run_with_pause(rep['kind'], stream, rep['pause_at'], rep.get('cuts') or [])
+    r = segx.run_with_pause(rep['kind'], stream, rep['pause_at'], rep.get('cuts') or [], rep.get('then', 'resume'))
     ok = same_log(list(r.sh['delivered']), expected(seq)) and r.exc is None
     print('paused at datapoint %d -> delivered %r' % (rep['pause_at'], list(r.sh['delivered'])))
     print('oracle:', 'holds' if ok else 'VIOLATED')
